@@ -10,7 +10,7 @@ PROP = dict(
     rule="seeded schedules of scheduler events (Download x3, piece arrival, piece serving, completion notice application, manual removal, "
          "preemption tick, clock tick, stop) driven on a REAL agent scheduler with a mock clock and a gated event loop that parks the "
          "asynchronous dispatcherCompleteEvent; the remote peer is played by the driver through dispatch.Messages; after every step control "
-         "presence, waiter count, cache state and parked notices are logged, and every Download return; non-trivial = a download, a received "
+         "presence, waiter count, cache state and parked notices are logged, and every Download return; bystander torrents (an idle seeder and/or an idle leecher) share the scheduler with the torrent under observation; non-trivial = a download, a received "
          "piece and a notice application or preemption tick",
     assumptions=["one blob of two pieces; announcing disabled; the peer is played in-process (no sockets)",
                  "the gated event loop is an export-only overlay shim wrapping the real baseEventLoop"],
